@@ -794,6 +794,8 @@ class Sim:
                 raise Infeasible()
             return
         self.path.conds.append((cond, outcome, line))
+        if getattr(self, 'cur_fn', None) is not None:
+            self.event({'kind': 'cond', 'value': cond, 'outcome': outcome, 'line': line})
 
     def known(self, cond):
         cm = self.path.cond_map()
@@ -845,6 +847,9 @@ class Sim:
                         self.path.word_syms.add(nv)
             else:
                 raise Cut()
+            if bid in headers:
+                self.event({'kind': 'loop_head', 'header': bid, 'visit': visits[bid], 'line': None,
+                            'locals': {k[2]: v for k, v in self.store.items() if isinstance(k, tuple) and k and k[0] == 'var'}})
             for e in b['elems']:
                 k = e['kind']
                 if k == 'stmt':
